@@ -348,6 +348,22 @@ func main() {
 				Replay: map[string]interface{}{"api": id.name + ".Scan", "data": fmt.Sprintf("%x", d)}})
 		}
 	}
+	// database/sql receives identifiers by value through interface{}: each type (not only its pointer) must be a
+	// driver.Valuer that the default converter accepts
+	for _, v := range []interface{}{lorawan.EUI64{1, 2, 3, 4, 5, 6, 7, 8}, lorawan.DevAddr{1, 2, 3, 4}, lorawan.NetID{1, 2, 3}, lorawan.AES128Key{1, 2, 3}} {
+		name := fmt.Sprintf("%T", v)
+		if _, ok := v.(driver.Valuer); !ok {
+			s.Fail(cases.GoFail{Key: "sql-by-value:" + name, What: name + " passed by value is not a driver.Valuer", Replay: map[string]interface{}{"type": name}})
+			continue
+		}
+		out, err := driver.DefaultParameterConverter.ConvertValue(v)
+		b, _ := out.([]byte)
+		want, _ := v.(driver.Valuer).Value()
+		wb, _ := want.([]byte)
+		if err != nil || !bytes.Equal(b, wb) || len(b) == 0 {
+			s.Fail(cases.GoFail{Key: "sql-by-value:" + name, What: fmt.Sprintf("database/sql conversion of %s by value gives %x, %v", name, b, err), Replay: map[string]interface{}{"type": name}})
+		}
+	}
 	rounds := 3000
 	if thorough {
 		rounds = 60000
